@@ -514,7 +514,10 @@ def run_real(unit, res, replay=None):
         try:
             done = alg.run_one_step()
         except Exception as e:
-            res["violations"].append(bad("step-raised", "completes", repr(e)[:160], f"run_one_step raised {e!r} in round {k}"))
+            v = bad("step-raised", "completes", repr(e)[:160], f"run_one_step raised {e!r} in round {k}")
+            v["key"]["exc"] = type(e).__name__
+            v["key"]["where"] = "calculate_design_vh" if "0-dimensional" in str(e) else "other"
+            res["violations"].append(v)
             return
         v = ad_invariants(alg, pre, bad)
         if v is not None:
